@@ -7,8 +7,9 @@ Every step of every thread strictly decreases `meas`, a weighted count of the wo
   trigger, `5·chunks + 3` for the feeder), plus 40 for the consumer's steps around the call;
 * a chunk on the work queue weighs 33, a chunk in a worker's hands or an item on the result queue 20;
 * the feeder, the replace thread, every worker and the consumer weigh the number of steps to the end of their current
-  round (`fOff`, `rOff`, `wOff`, `pos`); a retired worker's id waiting for the replace thread weighs 7 (three steps of
-  the replace thread, four of the successor); a retired worker that has still `end()` to run (`Cfg.joinTimeout`) weighs 1;
+  round (`fOff`, `rOff`, `wOff`, `pos`); a retired worker's id waiting for the replace thread weighs 8 (three steps of
+  the replace thread, five of the successor); a worker that has still `end()` to run (`.ending`) weighs 1, hence a worker
+  waiting for work (`.get`: a stop order takes it to `.ending`) weighs 2;
 * every call in which nothing has been emitted yet carries `procs.length + 1` for the mid-call `until_all_ready()`
   (`midB`; one wait per slot of `procs` and the step back into the result loop). -/
 namespace WindVerif.Pool
@@ -26,15 +27,15 @@ theorem someCount_append_some (q : List (Option Nat)) (k : Nat) : someCount (q +
 
 /-- steps a worker has before it (a chunk in its hands: deliver it, possibly retire and be replaced) -/
 def wOff : WPc → Nat
-  | .notStarted => 4
-  | .bfClear => 3
-  | .bfSet => 2
-  | .get => 1
-  | .lockAcq => 13
-  | .putNowait => 12
-  | .lockRel => 11
-  | .putBlock => 10
-  | .retire => 9
+  | .notStarted => 5
+  | .bfClear => 4
+  | .bfSet => 3
+  | .get => 2
+  | .lockAcq => 14
+  | .putNowait => 13
+  | .lockRel => 12
+  | .putBlock => 11
+  | .retire => 10
   | .ending => 1
   | .exited => 0
 
@@ -45,10 +46,10 @@ def mW (s : St) : Nat := (s.workers.map wWeight).sum
 def rOff : RPc → Nat
   | .idle => 0
   | .get => 0
-  | .join _ => 6
+  | .join _ => 7
   | .start _ => 1
 
-def mR (s : St) : Nat := 7 * someCount s.replQ + noneCount s.replQ + rOff s.rpc
+def mR (s : St) : Nat := 8 * someCount s.replQ + noneCount s.replQ + rOff s.rpc
 
 def mQ (s : St) : Nat := 20 * s.resQ.length + 33 * someCount s.workQ
 
